@@ -159,3 +159,79 @@ theorem C07_addTrip_commute (acc : Acc) (s t : TripData) (h : s.id ≠ t.id) (k 
     implementation) and listed as `partial` in the evidence. -/
 
 end Gtfs.Rt
+
+namespace Gtfs.Rt
+
+/-! ## order independence of the trips (conflict-free messages) -/
+
+/-- all trip mentions of a (pre-processed) message, in feed order -/
+def allMentions (ext : Ext) (es : List (Entity × Bool)) : List TripData :=
+  (es.filter fun p => !p.2).flatMap fun p => tripMentions ext p.1
+
+/-- **without conflicting duplicates**: every trip has at most one entity of its own among its mentions -/
+def ConflictFreeTrips (ext : Ext) (es : List (Entity × Bool)) : Prop :=
+  ∀ k, AtMostOneOwn ((allMentions ext es).filter fun m => m.id == k)
+
+theorem mergeAll_perm (k : TripID) (ms ms' : List TripData) (hp : ms'.Perm ms) (hk : ∀ m ∈ ms, m.id = k)
+    (h1 : AtMostOneOwn ms) : mergeAll none ms' = mergeAll none ms := by
+  by_cases hne : ms = []
+  · subst hne
+    have : ms' = [] := List.Perm.eq_nil hp
+    rw [this]
+  · have hne' : ms' ≠ [] := by
+      intro e; rw [e] at hp; exact hne (List.Perm.eq_nil hp.symm)
+    have hk' : ∀ m ∈ ms', m.id = k := fun m hm => hk m (hp.subset hm)
+    have h1' : AtMostOneOwn ms' := by
+      unfold AtMostOneOwn at *
+      rw [(hp.filter _).length_eq]; exact h1
+    rw [mergeAll_closed_form k ms hk hne h1, mergeAll_closed_form k ms' hk' hne' h1',
+        find?_perm_of_atMostOne _ ms ms' hp h1]
+
+/-- **any permutation of a conflict-free message's entities yields the same trip table**: the
+    same identifiers, each with the same data (its own entity's data wherever that entity stands) -/
+theorem C07_trip_table_perm_invariant (ext : Ext) (es es' : List (Entity × Bool)) (hp : es'.Perm es)
+    (hcf : ConflictFreeTrips ext es) (k : TripID) :
+    alookup k (runEntities ext es').trips = alookup k (runEntities ext es).trips := by
+  rw [runEntities_trips, runEntities_trips, foldl_addTrip_lookup, foldl_addTrip_lookup]
+  have hperm : (allMentions ext es').Perm (allMentions ext es) := (hp.filter _).flatMap_right _
+  have : alookup k ({} : Acc).trips = none := rfl
+  rw [this]
+  apply mergeAll_perm k
+  · exact hperm.filter _
+  · intro m hm; simpa using (List.mem_filter.mp hm).2
+  · exact hcf k
+
+/-- **…and hence the same Trips list** (identifiers and data, in the same sorted order) -/
+theorem C07_trips_perm_invariant (ext : Ext) (es es' : List (Entity × Bool)) (hp : es'.Perm es)
+    (hcf : ConflictFreeTrips ext es) :
+    ((runEntities ext es').trips.mergeSort fun a b => !tripLess b.1 a.1)
+      = ((runEntities ext es).trips.mergeSort fun a b => !tripLess b.1 a.1) := by
+  have inv := (runEntities_inv ext es).1
+  have inv' := (runEntities_inv ext es').1
+  have hperm : (runEntities ext es').trips.Perm (runEntities ext es).trips :=
+    perm_of_lookup_eq _ _ inv'.1 inv.1 (C07_trip_table_perm_invariant ext es es' hp hcf)
+  let le := fun (a b : TripID × TripData) => !tripLess b.1 a.1
+  have h1 := List.pairwise_mergeSort (le := le) tripLe_trans tripLe_total (runEntities ext es').trips
+  have h2 := List.pairwise_mergeSort (le := le) tripLe_trans tripLe_total (runEntities ext es).trips
+  have hsp : ((runEntities ext es').trips.mergeSort le).Perm ((runEntities ext es).trips.mergeSort le) :=
+    (List.mergeSort_perm _ le).trans (hperm.trans (List.mergeSort_perm _ le).symm)
+  refine List.Perm.eq_of_pairwise (le := fun a b => le a b = true) ?_ h1 h2 hsp
+  intro a b ha hb hab hba
+  -- both are entries of the table of `es`; neither key is below the other, so the keys are equal
+  have ha' : a ∈ (runEntities ext es).trips := (List.mergeSort_perm _ le).subset (hsp.subset ha)
+  have hb' : b ∈ (runEntities ext es).trips := (List.mergeSort_perm _ le).subset hb
+  have hkeys : a.1 = b.1 := by
+    rcases C07_tripLess_strict_total.2.2 a.1 b.1 (inv.2 a ha').2 (inv.2 b hb').2 with h | h | h
+    · simp [le, h] at hba
+    · exact h
+    · simp [le, h] at hab
+  obtain ⟨ka, va⟩ := a
+  obtain ⟨kb, vb⟩ := b
+  simp only at hkeys
+  subst hkeys
+  have e1 := (mem_iff_alookup' _ inv.1 ka va).mp ha'
+  have e2 := (mem_iff_alookup' _ inv.1 ka vb).mp hb'
+  rw [e1] at e2
+  cases e2; rfl
+
+end Gtfs.Rt
